@@ -105,7 +105,7 @@ def make_call(cfg):
     W = np.array(cfg['W'], dtype=float)
     p = cfg.get('params', {})
     if fn in LATTICE:
-        D = None if p.get('D') is None else np.array(p['D'], dtype=float)
+        D = None if p.get('D') is None else np.array(p['D'], dtype=p.get('D_dtype') or float)
         itr = int(p['itr'])
         return lambda rng: f(W.copy(), itr, D=None if D is None else D.copy(), seed=rng)
     if fn == 'randomize_graph_partial_und':
@@ -187,7 +187,8 @@ def explore_config(prop, cfg, judge, invariant=None, max_executions=300000, prun
         def inv(frames, trace):
             invariant(t, cfg, frames, lambda: case_for(trace))
     ex = Explorer(call, unit_points=unit_points_for(cfg), prune=prune, invariant=inv,
-                  max_executions=max_executions, horizon=horizon)
+                  max_executions=max_executions, horizon=horizon,
+                  max_seconds=120 if max_executions <= 400000 else 2400)
     with quiet():
         st = ex.explore(on_complete)
     t.c['configs'] += 1
